@@ -358,6 +358,10 @@ class Model:
         """
         if isinstance(source_pin, str):
             source_pin = self.pin[source_pin]
+        if source_pin is not None and target_pin is not None:
+            if source_pin not in self.pin_dic:
+                raise ValueError(f"Pin {source_pin} not found in {self}")
+            sol_list[-1].check_free_pin(target_pin[0], target_pin[1])
 
         param_mapping = param_mapping or {}
         ST = lekkersim.structure.Structure(model=self, param_mapping=param_mapping)
